@@ -207,6 +207,71 @@ def _run_chunk(chunk):
     return agg
 
 
+CHUNK_TIMEOUT = float(os.environ.get("VERIF_CHUNK_TIMEOUT", "1500"))
+
+
+def isolated(fn, arg):
+    """
+    Run fn(arg) in a freshly forked child of this (single-threaded) worker and return its pickled result.
+    Returns ("ok", result) | ("died", exit status) | ("timeout", seconds).
+    """
+    import pickle
+    import select
+    import signal
+
+    if os.environ.get("VERIF_NO_ISOLATION") == "1":
+        return ("ok", fn(arg))
+    r, w = os.pipe()
+    pid = os.fork()
+    if pid == 0:
+        code = 0
+        try:
+            os.close(r)
+            data = pickle.dumps(fn(arg), protocol=pickle.HIGHEST_PROTOCOL)
+            with os.fdopen(w, "wb") as f:
+                f.write(data)
+        except BaseException:
+            traceback.print_exc()
+            code = 3
+        finally:
+            os._exit(code)
+    os.close(w)
+    buf = []
+    t0 = time.time()
+    with os.fdopen(r, "rb", buffering=0) as f:
+        while True:
+            left = CHUNK_TIMEOUT - (time.time() - t0)
+            if left <= 0:
+                try:
+                    os.kill(pid, signal.SIGKILL)
+                except OSError:
+                    pass
+                os.waitpid(pid, 0)
+                return ("timeout", CHUNK_TIMEOUT)
+            ready, _, _ = select.select([f], [], [], min(left, 5.0))
+            if ready:
+                b = f.read(1 << 20)
+                if not b:
+                    break
+                buf.append(b)
+    _, status = os.waitpid(pid, 0)
+    data = b"".join(buf)
+    if not data or status != 0:
+        return ("died", status)
+    return ("ok", pickle.loads(data))
+
+
+def _run_chunk_isolated(chunk):
+    kind, val = isolated(_run_chunk, chunk)
+    if kind == "ok":
+        return val
+    what = "worker-process-died(status=%s)" % val if kind == "died" else "chunk-timeout(%ss)" % val
+    return {"n": len(chunk), "checks": len(chunk), "nontrivial": 0, "outcomes": {"worker-lost": len(chunk)},
+            "viol": [(chunk[-1], {"finding": "%s:%s" % (_MOD.ID, what.split("(")[0]),
+                                  "msg": "%s while running a chunk of %d cases ending with this one (the library crashed the interpreter or hung)" % (what, len(chunk))},
+                      len(chunk) - 1)]}
+
+
 def chunked(it, n):
     it = iter(it)
     while True:
@@ -227,10 +292,11 @@ class Pool:
             self.pool = None
         else:
             ctx = mp.get_context("fork")
-            # maxtasksperchild=1: every task (chunk of cases) runs in a freshly forked child, so process-global state of the
-            # library never leaks from one chunk into the next and "the cases of the chunk up to the failing one" is an exact,
-            # replayable history for any violation that depends on earlier calls in the same process
-            self.pool = ctx.Pool(nproc, initializer=_worker_init, initargs=(modname,), maxtasksperchild=1)
+            # Workers are long-lived (forked once, before the pool's helper threads exist). Isolation between chunks is obtained
+            # by `isolated` below: the single-threaded worker forks a child per task, so process-global state of the library
+            # never leaks from one chunk into the next and "the cases of the chunk up to the failing one" is an exact, replayable
+            # history. (Pool(maxtasksperchild=1) re-forks from a multi-threaded parent and was observed to deadlock.)
+            self.pool = ctx.Pool(nproc, initializer=_worker_init, initargs=(modname,))
 
     def imap(self, fn, items, chunksize=1):
         if self.pool is None:
@@ -297,7 +363,7 @@ def scope_explore(mod, tier, seed, report, pool, chunk=None):
             pending.append(c)
             yield c
 
-    for agg in pool.imap(_run_chunk, feeder()):
+    for agg in pool.imap(_run_chunk_isolated, feeder()):
         c = pending.popleft()
         report.add_chunk(c, agg)
         if budget and time.time() - report.t0 > budget:
